@@ -224,6 +224,37 @@ def base_case(ctx, rng, idx):
                                'transformation': 'non-positive simulation'},
                               feats)
 
+    # ---- all simulated individuals share one value at a time point (a
+    # model output that does not depend on the sampled parameters there,
+    # e.g. 0 at t = 0 with noise on the log scale): the sample variance is
+    # zero; whatever that scores, it scores the same with and without
+    # missing-value padding
+    if (idx // 5) % 3 == 1:
+        sim_z = sim.copy()
+        sim_z[:, int(rng.integers(sim.shape[1])),
+              int(rng.integers(sim.shape[2]))] = float(rng.uniform(0.5, 2))
+        try:
+            vals = {}
+            for tag, o2 in (('plain', obs), ('nan_padding', obs_p)):
+                f2 = make_filter(cname, o2, k)
+                with np.errstate(all='ignore'):
+                    vals[tag] = float(f2.compute_log_likelihood(
+                        sim_z.copy()))
+                    vals[tag + ':s1'] = float(f2.compute_sensitivities(
+                        sim_z.copy())[0])
+            ctx.count('zero_variance_simulations')
+            ref_v = vals['plain']
+            if any(not FM.same(v_, ref_v) for v_ in vals.values()):
+                ctx.violation('invariance',
+                              'zero_variance_simulation_scores_differ:'
+                              + cname,
+                              {'scores': vals, 'case': describe}, feats)
+        except Exception as e:      # noqa
+            ctx.violation_exc('evaluation_raises', e,
+                              {'case': describe,
+                               'transformation': 'zero-variance simulation'},
+                              feats)
+
     # ---- the same numbers in another container / dtype
     # (filters document np.ndarray inputs: array forms only)
     form = FM.pick(rng, ['readonly', 'strided', 'fortran', 'int64', 'int32'])
